@@ -116,9 +116,15 @@ func (f *formatter) formatStmts(list *[]ast.Vertex) {
 			} else if f.lastSemiColon != nil {
 				f.lastSemiColon.Value = append(f.lastSemiColon.Value, '?', '>')
 			} else {
+				closeTag := []byte("?>")
+				if html := stmt.(*ast.StmtInlineHtml).Value; len(html) > 0 && (html[0] == '\n' || html[0] == '\r') {
+					// the scanner takes one line break directly behind "?>" as
+					// part of the tag: give it one of its own, or the HTML loses its first
+					closeTag = []byte("?>\n")
+				}
 				*list = insert(*list, i+insertCounter, &ast.StmtNop{
 					SemiColonTkn: &token.Token{
-						Value: []byte("?>"),
+						Value: closeTag,
 					},
 				})
 				insertCounter++
